@@ -4,4 +4,6 @@ CONSTANTS
   MaxStmts = 1
   MaxDepth = 1
   Kinds = {"if"}
+  GenVars = {"x", "y"}
+  SimpleKinds = {"assign", "use", "call", "return", "raise", "break", "continue"}
 CHECK_DEADLOCK FALSE
